@@ -162,6 +162,36 @@ fn check_arena(st: &mut Stats, line: &Value, idx: usize, sweep_every: u64, full_
                 d.push(format!("hpo({id}) is {} but the term was {}added", if present.contains(&id) { "None" } else { "Some" }, if present.contains(&id) { "" } else { "never " }));
             }
         }
+        // Ontology::clone(): an independent ontology that answers every lookup like the original (an 80 MB copy: sampled)
+        if idx % 48 == 3 && variant < 2 {
+            match catch(|| ont.clone()) {
+                Err(p) => d.push(format!("Ontology::clone() panicked: {p}")),
+                Ok(c) => {
+                    let r = catch(|| {
+                        let mut dd = vec![];
+                        if c.len() != present.len() {
+                            dd.push(format!("clone: len() = {} but {} terms were added", c.len(), present.len()));
+                        }
+                        let cit: BTreeSet<u32> = c.iter().map(|t| t.id().as_u32()).collect();
+                        if cit != present {
+                            dd.push(format!("clone: iter() yields {:?}, added terms are {:?}", cit, present));
+                        }
+                        for id in present.iter().copied().chain([0u32, 1, 2, 117, 118, 119, TABLE - 1, TABLE, u32::MAX]) {
+                            match c.hpo(id) {
+                                Some(t) if present.contains(&id) && t.id().as_u32() == id && t.name() == first_name[&id] => {}
+                                None if !present.contains(&id) => {}
+                                other => dd.push(format!("clone: hpo({id}) = {:?}, the original was built with {:?}", other.map(|t| (t.id().as_u32(), t.name().to_string())), first_name.get(&id))),
+                            }
+                        }
+                        dd
+                    });
+                    match r {
+                        Ok(dd) => d.extend(dd),
+                        Err(p) => d.push(format!("reading a clone of the ontology panicked: {p}")),
+                    }
+                }
+            }
+        }
         if sweep_every > 0 && (idx as u64) % sweep_every == 0 && variant == 0 {
             // the whole HPO id space and a margin, every id
             st.bump("full_id_space_sweeps", 1);
